@@ -275,7 +275,8 @@ ExpC09(ns) ==
         ELSE (IF Mixed(k) /\ ~Mixed(k-1) THEN <<Item("m_mixed", "E", AnyRange(m), {})>> ELSE <<>>)
              \o (LET Same == {j \in With(k-1) : ns[M[j]].a = m.a}
                  IN IF m.a # "" /\ Same # {} THEN
-                       <<Item("m_id", "E", AnyRange(m), AnyRange(ns[M[CHOOSE j \in Same : \A x \in Same : j <= x]]))>>
+                       \* "pointing back to the earlier method": any earlier (live) method carrying that code
+                       <<Item("m_id", "E", AnyRange(m), UNION {AnyRange(ns[M[j]]) : j \in Same})>>
                     ELSE <<>>)
       RECURSIVE Cat_(_)
       Cat_(k) == IF k > Len(M) THEN <<>> ELSE One(k) \o Cat_(k+1)
